@@ -66,7 +66,11 @@ def bits_of(bs):
     a value that does not fit its declared length shows up as a longer string, never silently masked."""
     if not isinstance(bs, env()["Bitset"]):
         raise BadType(type(bs).__name__)
-    v, ln = bs.value, bs.length
+    # through the public conversions (int(), len()): how the class stores the two is its own business
+    try:
+        v, ln = int(bs), len(bs)
+    except Exception:
+        v, ln = getattr(bs, "value", None), getattr(bs, "length", None)
     if isinstance(v, bool) or not isinstance(v, int) or not isinstance(ln, int) or v < 0 or ln < 0:
         raise BadType("Bitset(%r,%r)" % (type(v).__name__, type(ln).__name__))
     w = max(ln, v.bit_length())
@@ -110,9 +114,13 @@ def record_rounds(fpe, sink):
     """Wrap fpe.round (looked up by the code as self.round) on the INSTANCE."""
     orig = fpe.round
 
-    def round_proxy(key, i, s, output_len=0):
-        o = orig(key, i, s, output_len)
-        sink.append({"i": small_int(i), "s": bits_of(s), "w": small_int(output_len), "o": bits_of(o)})
+    def round_proxy(key, i, s, *a, **kw):
+        o = orig(key, i, s, *a, **kw)
+        try:            # the recording feeds Layer B only: whatever the call looks like, it must go through unchanged
+            w = a[0] if a else (list(kw.values())[0] if kw else 0)
+            sink.append({"i": small_int(i), "s": bits_of(s), "w": small_int(w), "o": bits_of(o)})
+        except Exception:
+            pass
         return o
     fpe.round = round_proxy
     return fpe
@@ -680,7 +688,7 @@ def planted(recs):
 def check_planted(recs):
     try:
         pl = planted(recs)
-    except _NoBase:
+    except (_NoBase, IndexError, KeyError):
         # the self-test needs well-behaved base records; when the code under test does not produce them the real
         # validation reports that - the self-test is skipped, it must not turn a violation into a machinery error
         print("note: trace-specification self-test skipped (no suitable base record in this run)")
